@@ -209,6 +209,14 @@ def parseFmtAux : List Char → Option Nat → Option (List FI)
 /-- `"3HBx"` ↦ `[U 2, U 2, U 2, U 1, X 1]` -/
 def parseFmt (s : String) : Option (List FI) := parseFmtAux s.toList none
 
+/-- the concatenation of several formats (a class that calls `write_fmt` several times in a row) -/
+def parseFmts : List String → Option (List FI)
+  | [] => some []
+  | s :: ss =>
+    match parseFmt s, parseFmts ss with
+    | some a, some b => some (a ++ b)
+    | _, _ => none
+
 /-! ### combinators -/
 
 /-- one `write_fmt(fp, fmt, *row)` / `read_fmt(fmt, fp)` -/
